@@ -348,10 +348,20 @@ func (r *Replayer) RunRace(v *Vector, runs int) (raced bool, failures []string, 
 	os.WriteFile(p, b, 0644)
 	for i := 0; i < runs; i++ {
 		os.Remove(p + ".out")
-		cmd := exec.Command(r.bin, "-test.run", "TestVerifReplay", "-test.count=1")
+		ctx, cancel := context.WithTimeout(context.Background(), 45*time.Second)
+		cmd := exec.CommandContext(ctx, r.bin, "-test.run", "TestVerifReplay", "-test.count=1", "-test.timeout=0")
 		cmd.Dir = repoDir()
 		cmd.Env = append(goEnv(), "VERIF_VECTORS="+p, "VERIF_GOLDEN="+filepath.Join(verifDir(), "golden"), "GORACE=halt_on_error=0")
+		cmd.WaitDelay = 2 * time.Second
 		out, _ := cmd.CombinedOutput()
+		timedOut := ctx.Err() != nil
+		cancel()
+		if timedOut {
+			// the concurrent calls did not all return: a hang (deadlock / lost wake-up)
+			failures = append(failures, "concurrent-calls-hang: not all goroutines returned within 45s")
+			output = string(out)
+			return
+		}
 		if strings.Contains(string(out), "DATA RACE") {
 			raced = true
 			output = string(out)
